@@ -260,6 +260,7 @@ fn attr_channel_number() {
         e2.out[3] = kani::any();
         if let Some(b) = dec::<ChannelNumber>(&e2, &msg) {
             assert!(b.number() == n, "C02: reserved bits do not change what is decoded");
+            assert!(b == a, "C02: reserved bits do not change what is decoded (the decoded value is the one built from the same channel number)");
         }
     }
 }
@@ -284,6 +285,7 @@ fn attr_even_port() {
         e2.out[0] = (e.out[0] & 0x80) | (low & 0x7f);
         if let Some(b) = dec::<EvenPort>(&e2, &msg) {
             assert!(b.reserve() == r, "C02: RFFU bits ignored");
+            assert!(b == a, "C02: RFFU bits do not change the decoded value");
         }
     }
 }
@@ -319,6 +321,7 @@ fn attr_requested_transport() {
         e2.out[3] = kani::any();
         if let Some(b) = dec::<RequestedTrasport>(&e2, &msg) {
             assert!(b.protocol().as_u8() == p, "C02: RFFU ignored");
+            assert!(b == a, "C02: RFFU bits do not change the decoded value");
         }
     }
 }
@@ -347,6 +350,7 @@ macro_rules! family_kind {
                 e2.out[3] = kani::any();
                 if let Some(b) = dec::<$ty>(&e2, &msg) {
                     assert!(b.family() == fam, "C02: reserved bytes ignored");
+                    assert!(b == a, "C02: reserved bytes do not change the decoded value");
                 }
             }
         }
